@@ -1,6 +1,6 @@
 (** What C05/C06 demand, written independently of the iterator algorithms. *)
 Require Import AT.Model.Base AT.Model.Rose.
-Open Scope Z_scope.
+Local Open Scope Z_scope.
 
 (** the three unrestricted orders *)
 Fixpoint preorder (t : tree) : list id :=
